@@ -611,3 +611,22 @@ mutant('H4-root-transfer-ignores-amount', ['C13'], [
 mutant('H4-self-transfer-counted-as-debit', ['C13'], [
     (RS, "                    if from != to && !balance.is_zero() =>", "                    if !balance.is_zero() =>"),
 ], ['|H4|'])
+
+mutant('L8-worker-exits-after-empty-task', ['C05'], [
+    (S, "            if task.is_none() && !self.is_aborted() {\n                task = self.next();\n            }\n", ""),
+], ['|L8|'])
+mutant('L8-next-gives-up-when-cursor-exhausted', ['C05'], [
+    (S, "            if let Some(execute_id) = self.tx_dependency.next() &&\n                let Some(task) = self.execution_task(execute_id)\n            {\n                return Some(task);\n            }\n        }\n        None", "            if let Some(execute_id) = self.tx_dependency.next() &&\n                let Some(task) = self.execution_task(execute_id)\n            {\n                return Some(task);\n            }\n            if self.tx_dependency.index() >= self.block_size && self.scheduler_ctx.validation_idx() >= self.block_size {\n                return None;\n            }\n        }\n        None"),
+], ['|L8|'])
+mutant('X7-conflict-from-beneficiary-flag-only', ['C01', 'C02'], [
+    (S, "                conflict = accesses.is_blocked();\n                let IncarnationAccesses {", "                conflict = accesses.blocked_by_beneficiary;\n                let IncarnationAccesses {"),
+], ['|X7|'])
+mutant('D2-zero-slot-values-not-published', ['C01', 'C08'], [
+    (I, "            for (slot, value) in account.changed_storage_slots() {\n                self.publish_value(", "            for (slot, value) in account.changed_storage_slots() {\n                if value.present_value.is_zero() && created {\n                    continue;\n                }\n                self.publish_value("),
+], ['|D2|'])
+mutant('W1-mark-only-current-incarnation', ['C01', 'C02'], [
+    (S, "            {\n                entry.estimate = true;\n            }", "            {\n                if entry.incarnation > 0 {\n                    entry.estimate = true;\n                }\n            }"),
+], ['|W1|'])
+mutant('N8-next-does-not-revalidate-unconfirmed', ['C01', 'C02'], [
+    (S, "                    TransactionStatus::Executed | TransactionStatus::Unconfirmed => {", "                    TransactionStatus::Executed => {"),
+], ['|N8|'])
